@@ -22,11 +22,12 @@ import (
 // intent is what the simulator asked for with one transaction (its own ledger entry: the
 // payload it signed). Whether it was applied is read from the receipt status.
 type intent struct {
-	kind   string
-	from   int
-	val    common.Address // target validator (zero if none)
-	value  *big.Int       // tokens detained from the sender on success (create/deposit/dlg-add); nil otherwise
-	refund bool           // a contract call that earns an EVM gas refund when it succeeds (storage clear, self-destruct)
+	kind     string
+	from     int
+	val      common.Address // target validator (zero if none)
+	value    *big.Int       // tokens detained from the sender on success (create/deposit/dlg-add); nil otherwise
+	refund   bool           // a contract call that earns an EVM gas refund when it succeeds (storage clear, self-destruct)
+	cbChange bool           // a validator update that names a new reward address
 }
 
 func (it *intent) detains() bool { return it != nil && it.value != nil && it.value.Sign() > 0 }
@@ -410,7 +411,7 @@ func (s *sim) genValUpdate() {
 		msg.OperatorAddress = s.act.clients[s.c.Intn("new-operator", nClients)].addr
 	}
 	sig := s.masterSign(rec.Role, msg, from, func(b []byte) { msg.Sign = b }, func() { msg.Nonce++ })
-	s.stakingTx(from, staking.ValidatorUpdate, msg, gasStaking, &intent{kind: "val-update", val: a.key.Addr},
+	s.stakingTx(from, staking.ValidatorUpdate, msg, gasStaking, &intent{kind: "val-update", val: a.key.Addr, cbChange: msg.Coinbase != (common.Address{})},
 		fmt.Sprintf("val-update %s accept=%d commission=%d risk=%d name=%q coinbase=%s operator=%s%s", a.name, msg.AcceptDelegation, msg.CommissionRate, msg.RiskObligation, msg.Name, s.act.name(msg.Coinbase), s.act.name(msg.OperatorAddress), sig))
 }
 
